@@ -115,4 +115,64 @@ let () = register "c18.openlist" (fun line ->
     "[" ^ String.concat "," (List.map hex_of_bytes l) ^ "]\t-\t-"
   | _ -> "BAD-CASE")
 
+(* ---------- c18.project ---------- *)
+(* case: "<root> <files> <cur rel> <refs> <events>" *)
+let () = register "c18.project" (fun line ->
+  match split_ws line with
+  | [rooth; files; curh; refs; evs] ->
+    let t = parse_tree rooth files in
+    let cur = t.root @ (slash_n :: bytes_of_hex curh) in
+    let cfg = { exact_mode = false; ignore_refer = []; ignore_modules = system_modules; main_dir = t.root } in
+    let refl = List.map (fun r -> ((if r.[0] = 'd' then KSuffix else KRequire), bytes_of_hex (String.sub r 1 (String.length r - 1)))) (split_list refs) in
+    let disk0 = List.map bytes_of_string t.diskl @ [cur] in
+    let lua0 = t.indexed @ [cur] in
+    let events = List.map (fun e ->
+      let p = t.root @ (slash_n :: bytes_of_hex (String.sub e 1 (String.length e - 1))) in
+      if e.[0] = 'c' then Ins p else Rem p) (split_list evs) in
+    (* guard of C18_features_agree for reference (k, str) over the Lua files `lua` and the disk `disk` *)
+    let fa_guard lua disk (k, str) =
+      k = KRequire && str <> [] && remove_pre_str str <> [] && not (mem_bytes (remove_pre_str str) system_modules)
+      && not (odd_name lua)
+      && not (List.mem (complete_path t.root (doc_so (remove_pre_str str))) disk)
+      && List.length (uniq (List.filter (path_suffix (doc_lua (remove_pre_str str))) lua)) <= 1
+      && List.length (uniq (List.filter (path_suffix (doc_init (remove_pre_str str))) lua)) <= 1 in
+    let observe ?(force_agree = false) (s : pstate) =
+      String.concat "," (List.map2 (fun (r : ref_state) (k, str) ->
+        let loaded = uniq (List.map (rel_s t.root) (if r.rs_valid then r.rs_vstr else [])) in
+        let items = open_list (k = KRequire) (k = KSuffix) str in
+        let oo = open_outcomes s.ps_idx (fun f -> mem_bytes f s.ps_loaded) cur items in
+        let defs = uniq (List.map (fun (_, f) -> rel_s t.root f) oo) in
+        let agree = if List.length loaded <= 1 && List.length defs <= 1 then (if loaded = defs then "{1}" else "{0}") else "{0|1}" in
+        let agree = if force_agree && fa_guard s.ps_loaded s.ps_disk (k, str) then "{1}" else agree in
+        bool_s r.rs_err ^ ":" ^ bool_s r.rs_valid ^ ":" ^ set_s loaded ^ ":"
+        ^ set_s defs ^ ":" ^ set_s (List.map (fun (it, _) -> hex_of_bytes it) oo) ^ ":" ^ agree)
+        s.ps_refs refl) in
+    let rec go s disk lua evl macc sacc stale skipped =
+      let m = if s.ps_ambig then "AMBIG" else observe s in
+      let fresh = pinit cfg cur disk lua refl in
+      let sp = observe ~force_agree:true fresh in
+      match evl with
+      | [] -> (List.rev (m :: macc), List.rev (sp :: sacc), stale, skipped)
+      | e :: tl ->
+        let s' = pstep cfg cur false s e in
+        let (disk', lua', stale') = (match e with
+          | Ins p -> ((if List.mem p disk then disk else disk @ [p]), (if List.mem p lua then lua else lua @ [p]), stale)
+          | Rem p -> (List.filter (fun g -> g <> p) disk, List.filter (fun g -> g <> p) lua, stale || List.mem p lua)) in
+        (* a Created event after which cur was not re-analysed although a fresh start answers differently *)
+        let skipped' = skipped || (match e with
+          | Ins p -> not (List.exists (fun (r : ref_state) -> r.rs_err) s.ps_refs)
+                     && any_touch p s.ps_refs = Some false
+                     && observe s' <> observe (pinit cfg cur disk' lua' refl)
+          | Rem _ -> false) in
+        go s' disk' lua' tl (m :: macc) (sp :: sacc) stale' skipped' in
+    let s0 = pinit cfg cur disk0 lua0 refl in
+    let (m, sp, stale, skipped) = go s0 disk0 lua0 events [] [] false false in
+    let ambig = List.mem "AMBIG" m in
+    let dotslash = List.exists (fun (k, str) -> k = KRequire && remove_pre_str str <> str) refl in
+    let cls = (if stale then ["stale_remove"] else []) @ (if skipped then ["skipped_create"] else [])
+            @ (if dotslash then ["dot_slash_prefix"] else [])
+            @ (if ambig then ["tie_ambiguous"] else []) @ (if odd_name lua0 then ["odd_name"] else []) in
+    String.concat ";" m ^ "\t" ^ String.concat ";" sp ^ "\t" ^ (if cls = [] then "-" else String.concat "," cls)
+  | _ -> "BAD-CASE")
+
 let () = main ()
